@@ -23,6 +23,7 @@ type c10Case struct {
 	Acct *c10Acct `json:"acct,omitempty"`
 	Tx   *c10Tx   `json:"tx,omitempty"`
 	Order *c10Order `json:"order,omitempty"`
+	Snap  *c10Snap  `json:"snap,omitempty"`
 	// raw bytes for decode-only (malformed) cases
 	Raw string `json:"raw,omitempty"`
 }
@@ -398,6 +399,19 @@ func runC10(r *Run) {
 			if cs.Tx != nil {
 				c.txDirect(cs.Tx)
 			}
+		case "snap":
+			if cs.Snap != nil {
+				c.snapDirect(cs.Snap, "fixed")
+			}
+		case "snapdb":
+			if cs.Snap != nil {
+				c.snapDBFixed(cs.Snap)
+			}
+		case "order":
+			// replayed through a fresh database
+			if cs.Order != nil {
+				c.orderFixed(cs.Order)
+			}
 		case "raw-acct":
 			b, _ := hex.DecodeString(cs.Raw)
 			exp, _ := goDeAcct(b)
@@ -410,13 +424,13 @@ func runC10(r *Run) {
 
 	for i := 0; i < r.N; {
 		switch x := r.Rng.Intn(100); {
-		case x < 35:
+		case x < 30:
 			c.acctDirect(c.g.acct(), "direct")
 			i++
-		case x < 45:
+		case x < 38:
 			c.txDirect(c.g.tx())
 			i++
-		case x < 55:
+		case x < 52:
 			n := 4 + r.Rng.Intn(8)
 			c.acctDB(n)
 			i += n
@@ -424,8 +438,17 @@ func runC10(r *Run) {
 			n := 4 + r.Rng.Intn(8)
 			c.orderDB(n)
 			i += n
-		case x < 85:
+		case x < 84:
 			c.orderMalformed()
+			i++
+		case x < 88:
+			c.snapDirect(c.g.snap(), "direct")
+			i += 3
+		case x < 90:
+			c.snapDB()
+			i += 5
+		case x < 91:
+			c.snapMalformed()
 			i++
 		case x < 92:
 			c.acctMalformed()
